@@ -250,6 +250,6 @@ def _replay_cross(case):
 def subs(tier: str):
     q = tier == "quick"
     return [
-        Sub("histories", check, "hypothesis", strategy=lambda: _case(6 if q else 12), examples=40 if q else 700),
+        Sub("histories", check, "hypothesis", strategy=lambda: _case(6 if q else 12), examples=40 if q else 3000),
         Sub("cross-process", _replay_cross, "custom", run=_cross_process(40 if q else 200, ["0", "1", "4242"] if q else ["0", "1", "4242", "random", "77"])),
     ]
